@@ -84,14 +84,11 @@ static const uint8_t *verif_w;
 /* proof device for loops: a value the harness computes from the arguments before the call (loop
  * invariants must not contain function applications, not even uninterpreted ones) */
 static uint8_t verif_expect_byte;
-static size_t verif_row;
 
 #define VERIF_FN_PROLOGUE()                                                               \
   do {                                                                                    \
     const uint8_t *verif_nd_w_;                                                           \
     verif_w = verif_nd_w_;                                                                \
-    size_t verif_nd_row_;                                                                 \
-    verif_row = verif_nd_row_;                                                            \
   } while (0)
 
 #endif
